@@ -427,6 +427,10 @@ pub fn check(prop: &str, sc: &Scenario, rr: &RunResult) -> Vec<Violation> {
         "C02" => c02(sc, rr),
         "C04" => c04(sc, rr),
         "C05" => c05(sc, rr),
+        "C03" => c03(sc, rr),
+        "C07" => c_generic("C07", sc, rr),
+        "C08" => c_generic("C08", sc, rr),
+        "C09" => c09(sc, rr),
         "C10" => c10(sc, rr),
         "C11" => c11(sc, rr),
         "C06" => crate::oracle2::c06(sc, rr),
@@ -672,6 +676,278 @@ pub fn weak_zip_checks(prop: &str, sc: &Scenario, rr: &RunResult) -> Vec<Violati
                     return out;
                 }
             }
+        }
+    }
+    out
+}
+
+
+/// sinks and every step output against the reference, plus termination
+pub fn c_generic(prop: &str, sc: &Scenario, rr: &RunResult) -> Vec<Violation> {
+    let mut out = termination_as(prop, sc, rr);
+    if !out.is_empty() {
+        return out;
+    }
+    let reference = Interp::run(sc);
+    out.extend(check_sinks(prop, sc, rr, &reference, false));
+    out.extend(probe_expectations(prop, sc, rr, &reference));
+    out
+}
+
+pub fn c09(sc: &Scenario, rr: &RunResult) -> Vec<Violation> {
+    let mut out = c_generic("C09", sc, rr);
+    if !out.is_empty() {
+        return out;
+    }
+    out.extend(weak_zip_checks("C09", sc, rr));
+    // zip: exactly min(|a|, |b|) pairs, from the two inputs
+    for (si, st) in sc.steps.iter().enumerate() {
+        match st {
+            Step::Bin(_, _, BinOp::Zip) => {
+                let (Some(l), Some(r), Some(q)) = (
+                    rr.meta.iter().find(|m| m.path == [si] && m.pos == "preL"),
+                    rr.meta.iter().find(|m| m.path == [si] && m.pos == "preR"),
+                    rr.meta.iter().find(|m| m.path == [si] && m.pos == "out"),
+                ) else {
+                    continue;
+                };
+                let li = probe_iterations(&rr.rec, l.id).into_iter().next().unwrap_or_default();
+                let ri = probe_iterations(&rr.rec, r.id).into_iter().next().unwrap_or_default();
+                let qi = probe_iterations(&rr.rec, q.id).into_iter().next().unwrap_or_default();
+                if qi.len() != li.len().min(ri.len()) {
+                    out.push(viol("C09", "zip-pair-count", format!("zip at step {}: {} pairs from inputs of {} and {} elements", si, qi.len(), li.len(), ri.len())));
+                }
+                let lids: BTreeSet<u64> = li.iter().map(|x| x.0).collect();
+                let rids: BTreeSet<u64> = ri.iter().map(|x| x.0).collect();
+                for (id, _, v, _) in &qi {
+                    if !lids.contains(id) || !rids.contains(&(*v as u64)) {
+                        out.push(viol("C09", "zip-foreign-element", format!("zip at step {}: pair ({:x}, {:x}) does not come from the two inputs", si, id, v)));
+                        break;
+                    }
+                }
+            }
+            Step::Un(_, UnOp::Broadcast) => {
+                // every replica of the downstream block sees every element exactly once
+                let (Some(p), Some(q)) = (
+                    rr.meta.iter().find(|m| m.path == [si] && m.pos == "pre"),
+                    rr.meta.iter().find(|m| m.path == [si] && m.pos == "start"),
+                ) else {
+                    continue;
+                };
+                let all = probe_iterations(&rr.rec, p.id).into_iter().next().unwrap_or_default();
+                for ((pid, c), hist) in &rr.rec.probes {
+                    if *pid != q.id {
+                        continue;
+                    }
+                    let mut got: Vec<(u64, u16, i64, i64)> = hist.iter().filter(|r| r.kind <= K_TS).map(|r| (r.id, r.key, r.v, i64::MIN)).collect();
+                    got.sort();
+                    let mut want = all.clone();
+                    for w in want.iter_mut() {
+                        w.3 = i64::MIN;
+                    }
+                    if got != want {
+                        out.push(viol("C09", "broadcast", format!("broadcast at step {}: replica {:?} received {} elements, the stream has {}", si, c, got.len(), want.len())));
+                        break;
+                    }
+                }
+            }
+            _ => {}
+        }
+    }
+    out
+}
+
+
+// ------------------------------------------------------------------------------------------
+// C03 routing per connection kind
+// ------------------------------------------------------------------------------------------
+
+/// id -> coords at which a probe saw it
+fn where_seen(rec: &Recorder, pid: u32) -> BTreeMap<u64, Vec<CoordT>> {
+    let mut m: BTreeMap<u64, Vec<CoordT>> = BTreeMap::new();
+    for ((p, c), hist) in &rec.probes {
+        if *p == pid {
+            for r in hist.iter().filter(|r| r.kind <= K_TS) {
+                m.entry(r.id).or_default().push(*c);
+            }
+        }
+    }
+    m
+}
+
+fn probe_coords(rec: &Recorder, pid: u32) -> Vec<CoordT> {
+    rec.probes.keys().filter(|(p, _)| *p == pid).map(|(_, c)| *c).collect()
+}
+
+pub fn c03(sc: &Scenario, rr: &RunResult) -> Vec<Violation> {
+    let mut out = termination_as("C03", sc, rr);
+    if !out.is_empty() {
+        return out;
+    }
+    // (1) per boundary kind
+    for (si, st) in sc.steps.iter().enumerate() {
+        let path = vec![si];
+        let find = |pos: &str| rr.meta.iter().find(|m| m.path == path && m.pos == pos);
+        match st {
+            Step::Un(_, UnOp::Shuffle) | Step::Un(_, UnOp::Repl(_)) => {
+                let (Some(p), Some(q)) = (find("pre"), find("start")) else { continue };
+                let a = where_seen(&rr.rec, p.id);
+                let b = where_seen(&rr.rec, q.id);
+                let prod = probe_coords(&rr.rec, p.id);
+                let cons = probe_coords(&rr.rec, q.id);
+                let forward = matches!(st, Step::Un(_, UnOp::Repl(_)));
+                for (id, from) in &a {
+                    if from.len() != 1 {
+                        continue; // ids are not unique here (after a broadcast): nothing to say
+                    }
+                    let to = b.get(id).cloned().unwrap_or_default();
+                    if to.len() != 1 {
+                        out.push(viol(
+                            "C03",
+                            if forward { "forward/not-exactly-one" } else { "shuffle/not-exactly-one" },
+                            format!("step {} ({}): element {:x} produced at {:?} was delivered to {} replicas {:?}", si, crate::plan::step_brief(st), id, from[0], to.len(), to),
+                        ));
+                        return out;
+                    }
+                    if forward && cons.len() == prod.len() && (to[0].1, to[0].2) != (from[0].1, from[0].2) {
+                        out.push(viol(
+                            "C03",
+                            "forward/not-same-index",
+                            format!("step {} ({}): element {:x} produced at {:?} was delivered to {:?} although the consumer has the same-index replica", si, crate::plan::step_brief(st), id, from[0], to[0]),
+                        ));
+                        return out;
+                    }
+                }
+                for id in b.keys() {
+                    if !a.contains_key(id) {
+                        out.push(viol("C03", "foreign-element", format!("step {}: element {:x} arrived without having been produced", si, id)));
+                        return out;
+                    }
+                }
+            }
+            Step::Un(_, UnOp::Gb(..)) | Step::Un(_, UnOp::Win(..)) => {
+                let (Some(p), Some(q)) = (find("pre"), find("start")) else { continue };
+                // key -> replica must be a function, across all producers
+                let mut key_at: BTreeMap<u16, BTreeSet<CoordT>> = BTreeMap::new();
+                let mut n_out = 0usize;
+                for ((pid, c), hist) in &rr.rec.probes {
+                    if *pid == q.id {
+                        for r in hist.iter().filter(|r| r.kind <= K_TS) {
+                            key_at.entry(r.key).or_default().insert(*c);
+                            n_out += 1;
+                        }
+                    }
+                }
+                for (k, cs) in &key_at {
+                    if cs.len() > 1 {
+                        out.push(viol("C03", "groupby/key-split", format!("step {} ({}): key {} was delivered to {} replicas {:?}", si, crate::plan::step_brief(st), k, cs.len(), cs)));
+                        return out;
+                    }
+                }
+                // two-phase forms pre-aggregate before the boundary: counts differ by design
+                let two_phase = matches!(
+                    st,
+                    Step::Un(_, UnOp::Gb(GbForm::FoldAssoc, _))
+                        | Step::Un(_, UnOp::Gb(GbForm::ReduceAssoc, _))
+                        | Step::Un(_, UnOp::Gb(GbForm::Sum, _))
+                        | Step::Un(_, UnOp::Gb(GbForm::Count, _))
+                        | Step::Un(_, UnOp::Gb(GbForm::Avg, _))
+                        | Step::Un(_, UnOp::Gb(GbForm::MinEl, _))
+                        | Step::Un(_, UnOp::Gb(GbForm::MaxEl, _))
+                );
+                if !two_phase {
+                    let n_in: usize = where_seen(&rr.rec, p.id).values().map(|v| v.len()).sum();
+                    if n_in != n_out {
+                        out.push(viol("C03", "groupby/not-exactly-one", format!("step {} ({}): {} elements produced, {} delivered", si, crate::plan::step_brief(st), n_in, n_out)));
+                        return out;
+                    }
+                }
+            }
+            Step::Bin(_, _, BinOp::Merge) | Step::Bin(_, _, BinOp::Zip) => {
+                let (Some(l), Some(r), Some(q)) = (find("preL"), find("preR"), find("start")) else { continue };
+                let cons = probe_coords(&rr.rec, q.id);
+                let b = where_seen(&rr.rec, q.id);
+                // the two inputs may carry the same lineage ids (branches of one split): compare
+                // the combined multisets of producing and receiving replica indexes per id
+                let al = where_seen(&rr.rec, l.id);
+                let ar = where_seen(&rr.rec, r.id);
+                let same_shape = cons.len() > 1 && probe_coords(&rr.rec, l.id).len() == cons.len() && probe_coords(&rr.rec, r.id).len() == cons.len();
+                let ids: BTreeSet<u64> = al.keys().chain(ar.keys()).cloned().collect();
+                for id in ids {
+                    let mut from: Vec<(u64, u64)> = al.get(&id).into_iter().flatten().chain(ar.get(&id).into_iter().flatten()).map(|c| (c.1, c.2)).collect();
+                    let mut to: Vec<(u64, u64)> = b.get(&id).into_iter().flatten().map(|c| (c.1, c.2)).collect();
+                    from.sort();
+                    to.sort();
+                    if matches!(st, Step::Bin(_, _, BinOp::Merge)) && to.len() != from.len() {
+                        out.push(viol("C03", "forward/not-exactly-one", format!("step {} (merge): element {:x} was produced {} times (at replica indexes {:?}) and delivered {} times (at {:?})", si, id, from.len(), from, to.len(), to)));
+                        return out;
+                    }
+                    if same_shape && to.len() == from.len() && to != from {
+                        out.push(viol("C03", "forward/not-same-index", format!("step {} ({}): element {:x} produced at replica indexes {:?} was delivered to {:?}", si, crate::plan::step_brief(st), id, from, to)));
+                        return out;
+                    }
+                }
+            }
+            Step::Bin(_, _, op) => {
+                // joins: all results of one key are produced on one replica
+                let Some(q) = find("out") else { continue };
+                let mut key_at: BTreeMap<u16, BTreeSet<CoordT>> = BTreeMap::new();
+                for ((pid, c), hist) in &rr.rec.probes {
+                    if *pid == q.id {
+                        for r in hist.iter().filter(|r| r.kind <= K_TS) {
+                            key_at.entry(r.key).or_default().insert(*c);
+                        }
+                    }
+                }
+                let bcast = matches!(op, BinOp::Join(_, JoinForm::BcastHash) | BinOp::Join(_, JoinForm::BcastSortMerge) | BinOp::IntervalJoin { keyed: false, .. });
+                if !bcast {
+                    for (k, cs) in &key_at {
+                        if cs.len() > 1 {
+                            out.push(viol("C03", "groupby/join-sides-split", format!("step {} ({}): results for key {} were produced on {} replicas {:?}: equal keys of the two inputs did not meet on one replica", si, crate::plan::step_brief(st), k, cs.len(), cs)));
+                            return out;
+                        }
+                    }
+                }
+            }
+            _ => {}
+        }
+    }
+    // the results themselves (a key split between replicas shows up as missing join rows or as
+    // two partial aggregates)
+    let reference = Interp::run(sc);
+    out.extend(check_sinks("C03", sc, rr, &reference, false));
+    out.extend(probe_expectations("C03", sc, rr, &reference));
+    if !out.is_empty() {
+        return out;
+    }
+    // (2) control elements reach every connected replica: every edge of the execution graph
+    // carried the control elements its producer emitted, in order
+    let Some(g0) = rr.rec.graphs.iter().find(|g| g.host == 0) else { return out };
+    for (from, to, fragile) in &g0.edges {
+        if *fragile {
+            continue;
+        }
+        let key = LinkKey { from: *from, to: *to, prev_block: from.0 };
+        let Some(l) = rr.rec.links.get(&key) else {
+            out.push(viol("C03", "control/link-without-traffic", format!("connected replicas {:?} -> {:?}: nothing was ever sent on this link (not even the end-of-stream markers)", from, to)));
+            return out;
+        };
+        let ctrl: Vec<(u8, i64)> = l.sent.iter().filter(|e| matches!(e.kind, K_WM | K_FAR | K_TERM)).map(|e| (e.kind, e.ts)).collect();
+        // all links of this producer towards the same downstream block must agree
+        for (k2, l2) in rr.rec.links.iter().filter(|(k2, _)| k2.from == *from && k2.to.0 == to.0 && k2.prev_block == from.0) {
+            let c2: Vec<(u8, i64)> = l2.sent.iter().filter(|e| matches!(e.kind, K_WM | K_FAR | K_TERM)).map(|e| (e.kind, e.ts)).collect();
+            if c2 != ctrl {
+                out.push(viol(
+                    "C03",
+                    "control/not-broadcast",
+                    format!("producer {:?}: the control elements sent to {:?} ({} markers) differ from those sent to {:?} ({} markers)", from, to, ctrl.len(), k2.to, c2.len()),
+                ));
+                return out;
+            }
+        }
+        if !ctrl.iter().any(|c| c.0 == K_FAR) || ctrl.last().map(|c| c.0) != Some(K_TERM) {
+            out.push(viol("C03", "control/missing-marker", format!("link {:?} -> {:?}: control elements sent were {:?}", from, to, ctrl.iter().map(|c| kind_name(c.0)).collect::<Vec<_>>())));
+            return out;
         }
     }
     out
